@@ -145,7 +145,7 @@ def run_profile(ctx, gen, n, config='default', claims=None, extra_oracle=None, t
         h, ln, what, _ = hits[0]
         scr = H[h][:ln + 1]
         def fails(c):
-            out = vf.run_lines(vf.harness_bin('kdriver', config), c, timeout=120)[0]
+            out = vf.run_lines(vf.harness_bin('kdriver', config), c, timeout=40)[0]
             if len(out) != len(c): return 'stopped' in what
             if 'expected' in what:
                 for ln2, (a2, b2) in enumerate(zip(spec.predict_adaptive(c, [o.split('|')[0] for o in out]), out)):
@@ -161,7 +161,10 @@ def run_profile(ctx, gen, n, config='default', claims=None, extra_oracle=None, t
             if gv and 'expected' not in what: return True
             if extra_oracle and extra_oracle(c, out) and 'expected' not in what: return True
             return False
-        try: small = shrink_script(scr, fails, config)
+        import time as _t
+        t_sh = _t.time()
+        fails_b = lambda c: False if _t.time() - t_sh > 180 else fails(c)      # minimisation is bounded in time
+        try: small = shrink_script(scr, fails_b, config)
         except Exception: small = scr
         out = vf.run_lines(vf.harness_bin('kdriver', config), small, timeout=120)[0]
         mo = vf.run_lines(vf.OCAML + '/kdriver', small, args=['fixed'], timeout=120)[0]
